@@ -25,7 +25,7 @@ RULE = (
     "non-roots; non-trivial = tree with >= 3 nodes; distinct = distinct (tree fingerprint, predicate sets / xpath text)"
 )
 ASSUMPTIONS = ["predicates are pure functions of the offered node"]
-MUST_SEE = ["skip_self_with_prune", "start_pruned", "prune_not_filter_with_desc", "list_fields", "index_ge_10_match", "xpath_nonempty", "malformed_rejected", "calculate_xpath_nodes", "gather_calls", "two_anywhere_left_steps", "recalculated_after_change"]
+MUST_SEE = ["xpath_after_class_redefinition", "skip_self_with_prune", "start_pruned", "prune_not_filter_with_desc", "list_fields", "index_ge_10_match", "xpath_nonempty", "malformed_rejected", "calculate_xpath_nodes", "gather_calls", "two_anywhere_left_steps", "recalculated_after_change"]
 CONFIG = {
     "quick": {"shards": 16, "small_trees": 200, "exh_n": 4, "large_trees": 60, "xpaths": 40, "watchdog_s": 600},
     "thorough": {"shards": 32, "small_trees": 300, "exh_n": 6, "large_trees": 150, "xpaths": 100, "watchdog_s": 3400},
@@ -41,7 +41,7 @@ def run_shard(ctx):
     from pyoak.legacy.match.xpath import ASTXpath
     from pyoak.legacy.node import AwareASTNode
 
-    U = legacy_universe()
+    U = legacy_universe(runtime_only=(ctx.shard % 2 == 0))
     P = U.P
     classes = dict(U.cls)
     classes["AwareASTNode"] = AwareASTNode
@@ -291,3 +291,24 @@ def run_shard(ctx):
                     for fn, ix, c in struct_children(U, x):
                         stack.append((c, px + f"/@{fn}[{ix or 0}]{type(c).__name__}"))
         root.detach()
+
+    # ---- a class redefined under its name: an xpath compiled afterwards denotes the class that now bears the name ----
+    from vlib import origins as O
+
+    NO = O.build_origin(("no",))
+    src = f"@dataclass\nclass {P}Redef({P}Node):\n    v: int = 0\n"
+    texts = [f"//{P}Redef", f"/{P}Redef"]
+    for gen_no in range(3):
+        exec(compile(src, f"<c20 redef {gen_no}>", "exec", dont_inherit=True), U.module.__dict__)
+        cur = U.module.__dict__[f"{P}Redef"]
+        node = cur(v=gen_no, origin=NO)
+        ctx.count("xpath_after_class_redefinition")
+        for text in texts:
+            ctx.evaluations += 1
+            try:
+                ok = ASTXpath(text).match(node)
+            except Exception as e:  # noqa: BLE001
+                ok = f"{type(e).__name__}: {e}"[:100]
+            if ok is not True:
+                ctx.violation("legacy-xpath-redefined-class", "an xpath compiled after a class was redefined does not match an instance of the class now bearing the name", {"xpath": text, "generation": gen_no, "got": ok})
+        node.detach()
